@@ -144,6 +144,9 @@ def parseCDecl : Sexp → Option CDecl
   | .list [.atom "periodicallyUnavailable", r, ivs, p, st, off, en] => do
       some (.periodicallyUnavailable (← r.asStr?) (← asList? parsePair ivs) (← p.asInt?) (← st.asInt?) (← off.asInt?)
         (← asOpt? asInt? en))
+  | .list [.atom "periodicallyInterrupted", r, ivs, p, st, off, en] => do
+      some (.periodicallyInterrupted (← r.asStr?) (← asList? parsePair ivs) (← p.asInt?) (← st.asInt?) (← off.asInt?)
+        (← asOpt? asInt? en))
   | .list [.atom "sameWorkers", a, b] => do some (.sameWorkers (← a.asNat?) (← b.asNat?))
   | .list [.atom "distinctWorkers", a, b] => do some (.distinctWorkers (← a.asNat?) (← b.asNat?))
   | .list [.atom "unloadBuffer", t, b, q] => do some (.unloadBuffer (← t.asStr?) (← b.asStr?) (← q.asInt?))
@@ -180,6 +183,8 @@ def parseODecl : Sexp → Option ODecl
   | .list [.atom "resourceCost", rs] => do some (.resourceCost (← asList? asStr? rs))
   | .list [.atom "maximizeMaxBuffer", b] => do some (.maximizeMaxBuffer (← b.asStr?))
   | .list [.atom "minimizeMaxBuffer", b] => do some (.minimizeMaxBuffer (← b.asStr?))
+  | .list [.atom "flowtimeSingleResource", r, iv] => do
+      some (.flowtimeSingleResource (← r.asStr?) (← asOpt? parsePair iv))
   | _ => none
 
 def parseDecl : Sexp → Option Decl
